@@ -158,7 +158,15 @@ func (ts *TunnelSet) startUDP(t *Tunnel) {
 				ts.OnOpen(t)
 			}
 		}
-		simrt.Sleep(3 * time.Second)
+		if simrt.Chance(1, 2, "udp-abrupt-close") {
+			// the client goes away while its last datagrams are still being relayed
+			simrt.Probe("udp_closed_with_datagrams_in_flight")
+			if simrt.Chance(1, 2, "udp-close-gap") {
+				simrt.Sleep(time.Duration(simrt.Choose(30, "udp-close-gap-ms")) * time.Millisecond)
+			}
+		} else {
+			simrt.Sleep(3 * time.Second)
+		}
 		if t.clientGot > 0 {
 			simrt.Probe("udp_reply_received")
 		}
